@@ -29,11 +29,11 @@ CHECKS = {
  "C11": ("For every file any run produces (built, merged, loaded-and-re-persisted, twice) the harness parses the 44-byte footer itself and recomputes CRC-32(IEEE) with hash/crc32; TLC checks stored CRC = recomputed, footer numDocs/version/chunkMode = content/segment-reported values, returned byte count = bytes written, and byte-identity of re-persisted loaded segments.",
          "CRC recomputation by the Go standard library."),
  "C12": ("Complete fault enumeration on the real code: for each workload every byte offset at which the writer starts failing x buffer sizes {1,16,64,4096,default} for Merger.WriteTo and Segment.WriteTo, and every close point (bytes written when the channel closes, incl. before the call); TLC judges every outcome (error required when the writer failed; success only with the complete fault-free file; closed => ErrClosed or complete).",
-         "Workloads are small random merges/persists; fault-free file is itself validated against Level A."),
+         "Workloads are small random merges/persists plus a file-backed segment of several 64 KiB pieces; also exact-fit merge buffers, one-shot write failures and a second WriteTo on the same Merger; the fault-free file is itself validated against Level A. E1: WriterFaults model."),
  "C13": ("Histories of lookups that pass earlier postings lists/iterators as prealloc, reuse dictionaries, dictionary iterators and doc-value readers across terms, encodings (1-hit/general) and segments (built, loaded, merged); TLC validates every result against Level A, which is independent of the prealloc choice.",
-         "Ownership contract: objects derived from a reused list are dead (DESIGN 5)."),
+         "Ownership contract: objects derived from a reused list are dead (DESIGN 5); objects the code recycles on its own get alias handles, so interference between iterations shows as a contradiction. Includes Close(), iterators travelling between twin segments, pooled stored-field scratch contexts (CtxReader model)."),
  "C14": ("Sequences of builds on the recycled builder (larger->smaller, dv->no-dv, failing builds) and concurrent builders; the specification requires equal bytes for equal (batch, norm, mode) across the whole trace, with cold-pool builds as reference; pool reuse is measured by a probe; also under the race detector.",
-         "sync.Pool behaviour is not controlled; reuse is measured and required > 0."),
+         "sync.Pool behaviour is not controlled; reuse is measured and required > 0. Process-wide state is reached by building the same batch in fresh child processes with different first builds; wide schemas and > 10 000-term vocabularies included."),
  "C15": ("After every operation of histories of reads, persists and merges (caller-owned deletion bitmaps, exclusion bitmaps) the harness re-digests every live segment (full observation + persisted bytes) and every caller bitmap (membership + serialised form); TLC requires each digest to equal the one recorded first.",
          "Digest = SHA-256 of the canonical observation; an in-place RunOptimize of a caller bitmap changes its serialised form."),
  "C16": ("CollectionStats of every known and unknown field of built, loaded and merged segments (len = sum of frequencies, as C16 assumes) and CollectionStats.Merge are validated by TLC against IceData!Stats/StatsAdd.",
@@ -41,9 +41,9 @@ CHECKS = {
  "C17": ("For random input lists and deletion sets the real code performs the merge all at once, as an order-preserving grouping, with the left group's deletions applied later through the reported document-number map, and the identity merge; all outputs are validated against Level A and their observation digests must be equal whenever Level A cannot tell the contents apart.",
          "Metamorphic + oracle; bytes are not compared (only observations)."),
  "C18": ("DocsMatchingTerms with lists of known/unknown/empty-named fields, present/absent/1-hit terms, repeats and field switches on built, loaded and merged segments; TLC compares with IceData!Matching.",
-         "Sampled lists up to 5 pairs."),
+         "Sampled and structured lists (repeats, prefix-related field names, the same unknown field twice, 1-hit terms with odd norm bits), also on failing storage and after Dictionary.Close."),
  "C19": ("File-backed segments whose file is closed at every position of a generated read sequence, also exactly inside the FST critical section (gate hook); every later call must return within the watchdog without panic and yield an error, an empty result or the correct result (TLC: IceAPI!Judge with failed storage), also as merge input and persist source.",
-         "Storage faults are injected by closing the file."),
+         "Storage faults: the file is closed between calls or inside the FST critical section; a counting ReaderAt under the segment data fails after N more reads for good or for one read only (every read of a load enumerated); also while a merge runs. E1: FstCache and DvReader models with failure points."),
 }
 
 
